@@ -147,6 +147,9 @@ def join(lines):
     return "".join(l + "\n" for l in lines)
 
 
+_FILES = {"n": 0}
+
+
 def compare(ast, sm, schema, resources, main=MAIN, mode="mem"):
     """mode: 'mem' in-memory resources with URLs; 'files' real files loaded by URL through the
     real openResource; 'nourl' a single resource given as a file object without any URL."""
@@ -161,7 +164,20 @@ def compare(ast, sm, schema, resources, main=MAIN, mode="mem"):
         if ref.kind != "reject":
             return ref, None, out
         if mode == "files":
-            got = loadcheck.real_load_url(schema, main)
+            _FILES["n"] += 1
+            if _FILES["n"] % 2:
+                got = loadcheck.real_load_url(schema, main)
+            else:
+                # the same relative name as many loads before it, from another working directory
+                import os
+                from urllib.request import url2pathname
+                path = url2pathname(main[len("file://"):])
+                old_cwd = os.getcwd()
+                os.chdir(os.path.dirname(path))
+                try:
+                    got = loadcheck.real_load_url(schema, os.path.basename(path))
+                finally:
+                    os.chdir(old_cwd)
         elif mode == "fileurl" and len(resources) == 1:
             # an open disk file together with an explicit URL: the caller's URL names the resource
             import os
@@ -266,6 +282,8 @@ def _judge(ZConfig, ref, got, out):
 
 
 def evaluate(case):
+    if "existing" in case:
+        return [failure(sig, c, d) for sig, d, c in existing_probe()[0] if c == case]
     if "section_text" in case:
         return [failure(sig, case, d) for sig, d in section_datatype_probe(case["section_text"], case.get("resources"))]
     ast = case["schema"]
@@ -377,6 +395,62 @@ def section_datatype_probe(text, resources=None):
     return []
 
 
+EXISTING_SCHEMA = """<schema>
+  <sectiontype name="s">
+    <key name="f" datatype="existing-file"/><key name="d" datatype="existing-directory"/>
+    <key name="p" datatype="existing-path"/><key name="n" datatype="existing-dirpath"/>
+  </sectiontype>
+  <multisection type="s" name="*" attribute="ss"/>
+  <key name="f" datatype="existing-file"/><key name="d" datatype="existing-directory"/>
+  <key name="p" datatype="existing-path"/><key name="n" datatype="existing-dirpath"/>
+</schema>"""
+# names that do not exist -- for more than one reason: no such entry, a component longer than any
+# file system allows, a path longer than any, a home directory of a user nobody has, a name
+# through a file that is no directory, a NUL
+NONEXISTENT = ["/zcv-no-such-dir/x", "zcv-no-such-entry", "z" * 300, "a/" + "b" * 256 + "/c", "/" + "d/" * 3000 + "x",
+               "~zcvnosuchuser/x", "~zcvnosuchuser", "/etc/passwd/x", "/zcv-no-such-dir/", "x\x00y"]
+
+
+def existing_probe():
+    """An unconvertible value of the four existing-* datatypes is a conversion error with the line,
+    the URL, the text and a ValueError -- whatever the reason the name does not exist.
+    -> [(sig, detail, case)]"""
+    ZConfig = loadcheck.zc()
+    import io
+    sch = _SECTION_SCHEMAS.get("existing")
+    if sch is None:
+        sch = _SECTION_SCHEMAS["existing"] = ZConfig.loadSchemaFile(io.StringIO(EXISTING_SCHEMA))
+    out = []
+    n = 0
+    for key in "fdpn":
+        for value in NONEXISTENT:
+            if key == "n" and "/" not in value.rstrip("/"):
+                continue          # existing-dirpath of a bare name is about the current directory
+            for shape in ("top", "section", "included"):
+                n += 1
+                if shape == "top":
+                    resources, line, url = {MAIN: "# c\n%s %s\n" % (key, value)}, 2, MAIN
+                elif shape == "section":
+                    resources, line, url = {MAIN: "<s a>\n# c\n\n  %s %s\n</s>\n" % (key, value)}, 4, MAIN
+                else:
+                    inc = model.url_join(MAIN, "sub/inc.conf")
+                    resources, line, url = {MAIN: "<s a>\n%include sub/inc.conf\n</s>\n", inc: "# c\n# d\n%s %s\n" % (key, value)}, 3, inc
+                r = loadcheck.real_load_resources(sch, resources, MAIN)
+                case = {"existing": [key, value, shape]}
+                if r[0] == "ok":
+                    out.append(("existing-probe:accepted", "%s %r" % (key, value[:40]), case))
+                elif r[0] == "internal":
+                    out.append(("internal:%s:%s" % (type(r[1]).__name__, r[2]), "%s %r: %r" % (key, value[:40], r[1]), case))
+                elif not isinstance(r[1], ZConfig.DataConversionError):
+                    out.append(("conversion-error-wrong-class", "%s for existing-* %r" % (type(r[1]).__name__, value[:40]), case))
+                elif r[1].lineno != line or _unq(r[1].url) != _unq(url):
+                    out.append(("wrong-line:value-conversion", "existing-* %r in %s: line %r url %r, expected %r %r"
+                                % (value[:40], shape, r[1].lineno, r[1].url, line, url), case))
+                elif r[1].value != value.strip() or not isinstance(r[1].exception, ValueError):
+                    out.append(("conversion-error-wrong-value", "value %r exception %r" % (r[1].value[:40], r[1].exception), case))
+    return out, n
+
+
 def run_every_position(spec, res, counters):
     """For each accepted text: every insertable line of EVERY at EVERY line position, unsplit and
     split into includes (complete for the text; texts are sampled)."""
@@ -416,6 +490,12 @@ def run_shard(spec):
     res = Result()
     counters = collections.Counter()
     if spec.get("every_position"):
+        if spec["lo"] == 0:
+            fl, n = existing_probe()
+            res.evaluations += n
+            counters["existing-*-names-that-do-not-exist"] += n
+            for sig, d, case in fl:
+                res.fail(sig, case, d)
         run_every_position(spec, res, counters)
         for i in range(spec["lo"], spec["hi"]):
             for j in range(8):
